@@ -189,8 +189,9 @@ func lifeOps(w *world.World, ctx sdk.Context, o LifeOpts) []engine.Op {
 			}
 		}
 		if o.Drain {
-			if b := w.Bal(ctx, sp.Addr); b.IsPositive() && holders[sp.S()] {
-				out = append(out, SendOp(w, s, world.T, b, "drain("+sp.Name+")"))
+			// the provider moves (almost) all its liquid funds away: later pledges / top-ups create debt
+			if b := w.Bal(ctx, sp.Addr); b.GT(sdk.NewInt(10)) {
+				out = append(out, SendOp(w, s, world.T, b.SubRaw(10), "drain("+sp.Name+")"))
 			}
 		}
 	}
